@@ -38,10 +38,14 @@ def norm_type(text):
     """-> (class, size-or-name, pointer depth) of a C parameter / result type text without the name"""
     t = re.sub(r'\b(const|volatile|struct|restrict|extern|static)\b', ' ', text)
     stars = t.count("*") + t.count("[")
+    extent = 1
+    for m_ in re.finditer(r'\[\s*(\d+)\s*\]', t):
+        extent *= int(m_.group(1))          # a member array of fixed extent: its total size is part of the layout
     t = re.sub(r'\[[^\]]*\]', ' ', t).replace("*", " ")
     base = " ".join(t.split())
     if base in SCALAR:
-        return SCALAR[base] + (stars,)
+        cls_, size_ = SCALAR[base]
+        return (cls_, size_ * extent if isinstance(size_, int) else size_, stars)
     return ("named", base.lower(), stars)
 
 
@@ -122,6 +126,8 @@ def struct_layouts(text):
     """name (lower case) -> [member types] for structs without nested braces (unions make a struct unparsable here)"""
     text = re.sub(r'/\*.*?\*/', ' ', text, flags=re.S)
     text = re.sub(r'//[^\n]*', ' ', text)
+    # a union of pointers inside a struct (the address member of the array descriptor) occupies one pointer
+    text = re.sub(r'union\s*\{[^{}]*\}\s*(\w+)\s*;', r'void *\1;', text)
     out = {}
     for m in STRUCT_RX.finditer(text):
         members = []
@@ -144,10 +150,10 @@ LAST = {}
 
 def compatible(c, f, result=False):
     """c: from the generated C header; f: what gfortran says the interface means"""
-    if c == f:
-        return True
     cc, cs, cp = c
     fc, fs, fp = f
+    if c == f and not (cc == "named" and cs in LAYOUTS["c"] and fs in LAYOUTS["f"]):
+        return True
     if cc == "fnptr" or fc == "fnptr":
         return (cc == "fnptr" or (cc, cp) == ("void", 1) or cp >= 1) and (fc == "fnptr" or fp >= 1 or fc == "named")
     if (fc, fp) == ("void", 1) and cc == "named" and cp == 1 and cs in LAYOUTS["c"] and not result:
@@ -162,12 +168,19 @@ def compatible(c, f, result=False):
     if cp >= 1 and ("void" in (cc, fc)):
         return True             # void * (type(C_PTR)) stands for any object pointer at that depth
     if cc == "named" and fc == "named":
-        if cs == fs:
-            return True
         lc, lf = LAYOUTS["c"].get(cs), LAYOUTS["f"].get(fs)
+        if cs == fs and (lc is None or lf is None):
+            return True
         if lc is None or lf is None:
             return True         # a type whose definition is not in the generated files: no verdict
         return len(lc) == len(lf) and all(compatible(a, b) for a, b in zip(lc, lf))
+    if cp >= 1 and cc == "named" and fc == "named" and cp == fp:
+        # a struct both sides define in the generated files (array descriptor, capsule, user struct): same members behind
+        # the pointer, whatever the two sides call the type
+        lc, lf = LAYOUTS["c"].get(cs), LAYOUTS["f"].get(fs)
+        if lc is not None and lf is not None:
+            return len(lc) == len(lf) and all(compatible(a, b) for a, b in zip(lc, lf))
+        return True
     if cp >= 1 and (cc == "named" or fc == "named"):
         # an enum / typedef'd scalar behind a pointer cannot be judged by name
         return True
@@ -231,6 +244,15 @@ def check(inp):
             cprotos.update(prototypes(text))
             cfnptrs.update(fnptr_params(text))
             LAYOUTS["c"].update(struct_layouts(text))
+        # language c: an interface may bind straight to the USER's function; its prototype is the declaration in the YAML
+        userprotos = {}
+        if "decls" in inp and inp.get("language") == "c":
+            texts = list(inp["decls"])
+            for pre in inp.get("pre", []):
+                texts += re.findall(r'^- decl:\s*(.*\))\s*$', pre, re.M)
+            for t_ in texts:
+                t_ = re.sub(r'\+\w+(\([^()]*(\([^()]*\))?[^()]*\))?', '', t_)
+                userprotos.update(prototypes(" ".join(t_.split()) + ";"))
         fprotos = {}
         pending = list(fsrc)
         for _round in range(len(fsrc) + 1):
@@ -260,6 +282,8 @@ def check(inp):
         LAST.update({"fortran_files": len(fsrc), "not_processed": pending, "interfaces": len(fprotos),
                      "compared": len([n for n in fprotos if n in cprotos])})
         for name, (fret, fps, ftext) in sorted(fprotos.items()):
+            if name not in cprotos and name in userprotos:
+                cprotos[name] = userprotos[name]
             if name not in cprotos:
                 continue        # bound to a function of the user's library: no generated definition to compare with
             cret, cps, ctext = cprotos[name]
@@ -342,6 +366,24 @@ def synthetic():
 
 def candidates(seed, around=None):
     shapes = synthetic()
+    # library-level options that size generated types: the C and the Fortran definition follow them together or not at all
+    for lang in ("c++", "c"):
+        for opts in ({"F_assumed_rank_max": "3"}, {"F_assumed_rank_max": "10"}):
+            yield {"decls": ["int *f1() +dimension(4)+deref(pointer)", "void f2(int **p +intent(out)+dimension(10)+deref(pointer))",
+                             "void f3(double *a +cdesc+rank(2))" if False else "const char *f3() +deref(allocatable)"],
+                   "language": lang, "options": opts}
+    # a struct member switched off for one language stays in the layout of both (the other members keep their offsets)
+    for lang in ("c++", "c"):
+        for off in ("wrap_fortran", "wrap_c", "wrap_python"):
+            yield {"pre": ["- decl: struct Rec\n  declarations:\n  - decl: int id\n  - decl: double weight\n    options:\n      %s: false\n"
+                           "  - decl: int count\n  - decl: double total\n" % off],
+                   "decls": ["void use(Rec *r +intent(inout))", "double sum(Rec r)"], "language": lang, "options": {}}
+    # fortran_generic entries that change the kind of a by-value scalar while another argument gets a rank
+    for lang in ("c", "c++"):
+        yield {"pre": ["- decl: double AddScaled(double factor, const int *values, int nvalues)\n  fortran_generic:\n"
+                       "  - decl: (float factor, const int *values+rank(1))\n    function_suffix: _float\n"
+                       "  - decl: (double factor, const int *values+rank(1))\n    function_suffix: _double\n"],
+               "decls": ["int other(int a)"], "language": lang, "options": {}}
     for x in corpus():
         yield x
     # one declaration per library: a rejected declaration would hide its neighbours
